@@ -28,7 +28,8 @@ def raw_universe(ctx, binp, obs, inputs, info_all, cfg=None):
     vlib.write_ndjson(trees, TREES)
 
     def rec(name, **kw):
-        files, info = checks_dav._record(ctx, binp, ctx.path("obs", name), shards=vlib.NCPU, **kw)
+        kw.setdefault("shards", vlib.NCPU)
+        files, info = checks_dav._record(ctx, binp, ctx.path("obs", name), **kw)
         for f in files:
             inputs[f] = {"trees": trees, "reqs": rawout}
         info["universe"] = name
@@ -44,16 +45,38 @@ def run(ctx, binp, obs, inputs, info_all):
 
     styles = [0, 1, 2, 3]
     concs = ["id"] if q else ["id", "dots", "special"]
-    for conc in concs:
-        for stl in styles:
-            # the recorder shards by tree: with 3 trees, run the styles one after the other
-            rec("raw-%s-s%d" % (conc, stl), mode="product", trees=trees, reqs=rawout, style=stl, conc=conc, follow="true")
-    if q:
-        # names that need escaping (blank, %, #, ?, non-ASCII, quotes): the hrefs reported for them must lead back to them
-        rec("raw-special-s0", mode="product", trees=trees, reqs=rawout, style=0, conc="special", follow="true")
-        # names beginning or ending with dots (not dot segments)
-        rec("raw-dots-s0", mode="product", trees=trees, reqs=rawout, style=0, conc="dots", follow="true")
-    rec("rand", mode="rand", trees=trees, n=(3000 if q else 60000), conc="id")
+    # two served directories in one process (one recorder shard, so that nothing else runs next to it): the sibling directory
+    # root2 is served by a second handler that is asked, read-only, for the same paths first
+    rec("tworoots", mode="product", trees=trees, treemod=3, treerem=1, reqs=rawout, style=0, conc="id+two", shards=1)
+    pending = None
+    try:
+        for conc in concs:
+            for stl in styles:
+                # the recorder shards by tree: with 3 trees, run the styles one after the other
+                rec("raw-%s-s%d" % (conc, stl), mode="product", trees=trees, reqs=rawout, style=stl, conc=conc, follow="true")
+        if q:
+            # names that need escaping (blank, %, #, ?, non-ASCII, quotes): the hrefs reported for them must lead back to them
+            rec("raw-special-s0", mode="product", trees=trees, reqs=rawout, style=0, conc="special", follow="true")
+            # names beginning or ending with dots (not dot segments)
+            rec("raw-dots-s0", mode="product", trees=trees, reqs=rawout, style=0, conc="dots", follow="true")
+            # names with a backslash (an ordinary character here) and with pattern metacharacters
+            rec("raw-backslash-s0", mode="product", trees=trees, reqs=rawout, style=0, conc="backslash", follow="true")
+        else:
+            rec("raw-backslash-s0", mode="product", trees=trees, reqs=rawout, style=0, conc="backslash", follow="true")
+            rec("raw-globby-s0", mode="product", trees=trees, reqs=rawout, style=0, conc="globby", follow="true")
+        rec("rand", mode="rand", trees=trees, n=(3000 if q else 60000), conc="id")
+    except Machinery as e:
+        # a recorder that cannot even set up its directories (several sandboxes in one process disturbing one another) is a
+        # machinery failure -- unless what was recorded before already shows why: judge that first
+        pending = e
+        log("[F2] a recorder failed (%s); judging what was recorded before" % str(e).splitlines()[0][:200])
+    rc = _finish(ctx, binp, obs, inputs, info_all, nraw, styles, concs, q)
+    if pending is not None and rc == 0:
+        raise pending
+    return rc
+
+
+def _finish(ctx, binp, obs, inputs, info_all, nraw, styles, concs, q):
     return checks_dav.judge_and_finish(ctx, binp, obs, inputs, info_all, len(TREES), nraw, tags=("C03", "C01"),
                                        extra_cov={"raw_request_universe": nraw, "spellings": styles, "concretisations": concs,
                                                   "rule": "every raw segment sequence up to length %d over {a,b,..,.,empty} x methods x {request path, Destination} x %d trees x 4 spellings, "
